@@ -217,7 +217,8 @@ func genRound2(r *hlib.Run, add func(string, []byte, bool, bool), addLight func(
 
 	// ---- (1a) systematic sweeps: every length of constant / alternating payloads, every prefix of texts.
 	// Every payload gets the Go round trip in both formats; the ones whose stream ends inside a pending
-	// run also go to the Lean model, the xz tool and the Wuffs decoders, and so does every 97th.
+	// run also go to the Lean model, the xz tool and the Wuffs decoders, and so does every 97th (lengths
+	// 0..1200 in the quick tier, 0..6000 in the thorough tier).
 	maxLen := 1200
 	sparse := 23 // of the streams that end with pendingExtra > 0 or low >= 0xFF000000 only, every 23rd goes to the model / external decoders
 	if T {
